@@ -60,7 +60,7 @@ impl Lint for UnusedVariableLint {
             .iter()
             .filter(|(_, variable)| !self.ignore_pattern.is_match(&variable.name))
         {
-            if context.standard_library.global_has_fields(&variable.name) {
+            if variable.is_global && context.standard_library.global_has_fields(&variable.name) {
                 continue;
             }
 
